@@ -5,6 +5,7 @@ specifications, an independent solve of the kriging system built from the config
 attributes of the Krige object under test), and random operation histories on one Krige object."""
 import contextlib
 import copy
+import re
 import itertools
 import warnings
 import numpy as np
@@ -451,7 +452,8 @@ def gen_config(rng, variants=VARIANTS, latlon_ok=True, max_n=9, mnt=True, frames
         err_kind = ["nugget", "nugget", "scalar", "array"][c]
         forced = dict(exact=bool(c == 1), nugget=float(rng.choice([0.125, 0.5])) if rng.rand() < 0.7 else 0.0)
     generic = variant == "Krige"
-    latlon = bool(latlon_ok and rng.rand() < 0.15 and variant in ("Simple", "Ordinary", "Krige"))
+    # (wave 6: geographic models also with functional drifts — Universal and the generic class; the drift functions act on (lat, lon[, t]))
+    latlon = bool(latlon_ok and rng.rand() < (0.25 if variant == "Universal" else 0.15) and variant in ("Simple", "Ordinary", "Universal", "Krige"))
     temporal = bool(rng.rand() < 0.15)
     dim = 2 if latlon else int(rng.randint(1, 4))
     fdim = dim + (1 if temporal else 0)
@@ -460,7 +462,7 @@ def gen_config(rng, variants=VARIANTS, latlon_ok=True, max_n=9, mnt=True, frames
         fdim = dim
     # the generic class is drawn as one of the classical systems or a free combination of the options
     shape = str(rng.choice(["simple", "ordinary", "universal", "extdrift", "free"])) if generic else variant.lower()
-    if latlon and shape in ("universal", "extdrift", "free"):
+    if latlon and shape == "extdrift":
         shape = "ordinary"
     wants_drift = variant == "Universal" or shape in ("universal", "free")
     n = int(rng.randint(2, max_n + (6 if wants_drift else 0)))
@@ -1200,3 +1202,683 @@ def run_history(rng, cfg, segments=3, zero_mode=None):
             h.set_condition()
     for _ in range(int(rng.randint(1, 4))):
         yield one(bool(zero_mode) and rng.rand() < 0.4, True)
+
+
+# ------------------------------------------------------------------ hand-written geometry and kriging (wave 6)
+# Nothing below reads the geometry (isometrize / anis / angles caches) or the sill of a model object under test: distances
+# come from `hand_iso`, the covariance profile from a freshly constructed ISOTROPIC model with scalar parameters (or from
+# model.covariance for the variance-factor models), the sill is the reported variance + nugget.
+def hand_iso(dim, anis, angles):
+    """the linear map taking positions to the isotropic coordinates of a model whose main axes are rotated by the
+    Tait-Bryan angles (planes xy, xz, yz with alternating signs) and whose transversal length scales are anis * len_scale"""
+    rot = np.eye(dim)
+    for i, (a, (p_, q_)) in enumerate(zip(list(angles)[: {1: 0, 2: 1, 3: 3}[dim]], [(0, 1), (0, 2), (1, 2)])):
+        g = np.eye(dim)
+        th = (-1) ** i * a
+        g[p_, p_] = g[q_, q_] = np.cos(th)
+        g[p_, q_], g[q_, p_] = -np.sin(th), np.sin(th)
+        rot = g @ rot
+    return np.diag(1.0 / np.array([1.0] + [float(x) for x in anis])) @ rot.T
+
+
+def hand_solve(profile, sill, a, b, z, err, unbiased=False, rows_c=(), rows_t=(), exact=False, only_mean=False):
+    """kriging system assembled and solved with numpy.  a (n, d), b (m, d): ISOTROPIC coordinates of conditioning points and
+    targets; profile: covariance as a function of the lag; z: prepared data; err (n,): diagonal loading (measurement error /
+    nugget).  Returns dict(raw, var, cond)"""
+    n, m = a.shape[0], b.shape[0]
+    rows_c = ([np.ones(n)] if unbiased else []) + [np.broadcast_to(np.asarray(r, dtype=float), (n,)) for r in rows_c]
+    rows_t = ([np.ones(m)] if unbiased else []) + [np.broadcast_to(np.asarray(r, dtype=float), (m,)) for r in rows_t]
+    r = len(rows_c)
+    K = np.zeros((n + r, n + r))
+    K[:n, :n] = profile(cdist(a, a)) + np.diag(np.broadcast_to(np.asarray(err, dtype=float), (n,)))
+    lag = cdist(a, b)
+    k = np.zeros((n + r, m))
+    if not only_mean:
+        k[:n] = np.where(lag <= BAND, sill, profile(lag)) if exact else profile(lag)
+    for i, (rc, rt) in enumerate(zip(rows_c, rows_t)):
+        K[n + i, :n] = K[:n, n + i] = rc
+        k[n + i] = rt
+    try:
+        cond = float(np.linalg.cond(K))
+        W = np.linalg.solve(K, k)
+    except np.linalg.LinAlgError:
+        return dict(raw=np.full(m, np.nan), var=np.full(m, np.nan), cond=np.inf)
+    zz = np.concatenate([np.asarray(z, dtype=float), np.zeros(r)])
+    return dict(raw=zz @ W, var=np.maximum(sill - np.einsum("ij,ij->j", k, W), 0.0), cond=cond if np.isfinite(cond) else np.inf)
+
+
+# ------------------------------------------------------------------ (1) the conditions are the VALUES given at set time
+# keys of the aliasing that the unchanged tree has (cond_err / ext_drift float64 arrays are kept by reference: visible through the
+# public attributes at once, through the results after the argument-less refresh) — finding AL1 of known_findings.json
+ALIAS_PRISTINE = re.compile(r"^\w+:caller-array-aliased:(cond_err|ext_drift)(\+(cond_err|ext_drift))*:"
+                            r"(visible-state(-after-refresh)?|(estimate|variance|get-mean|field|data-not-honoured|reported-conditions-not-honoured)-after-refresh)$")
+
+
+def _mutate(buf, kind, rng, unit=1.0):
+    """in-place modification of a caller-owned buffer (ndarray: true in-place arithmetic; python list: slice assignment)"""
+    a = buf if isinstance(buf, np.ndarray) else np.array(buf, dtype=float)
+    if kind == "scale":
+        new = a * 1.7
+    elif kind == "shift":
+        new = a + 0.83 * unit
+    elif kind == "noise":
+        new = a + 0.4 * unit * rng.randn(*a.shape)
+    else:       # reorder along the last axis
+        new = a[..., ::-1].copy()
+        if np.array_equal(new, a, equal_nan=True):
+            new = a + 0.83 * unit
+    if isinstance(buf, np.ndarray):
+        if np.issubdtype(buf.dtype, np.integer):
+            new = np.where(np.round(new) == a, a + 1, np.round(new))
+        buf[...] = new
+    else:
+        buf[:] = new.tolist()
+
+
+def _pos_container(form, cp):
+    """(object handed to gstools, caller-owned buffers behind it)"""
+    cp = np.array(cp, dtype=float)
+    if form == "array":
+        a = np.ascontiguousarray(cp)
+        return a, [a]
+    if form == "array-F":
+        a = np.asfortranarray(cp)
+        return a, [a]
+    if form == "tuple":
+        t = tuple(np.array(r) for r in cp)
+        return t, list(t)
+    if form == "list-of-arrays":
+        t = [np.array(r) for r in cp]
+        return t, list(t)
+    if form == "1d":
+        a = np.array(cp[0])
+        return a, [a]
+    if form == "nested-list":
+        t = cp.tolist()
+        return t, [t]
+    raise ValueError(form)
+
+
+def caller_arrays(rng, cfg):
+    """caller-owned containers for the conditions of `cfg` (float64 arrays of the final shape, tuples / lists of 1-D arrays,
+    1-D arrays, (n, 1) columns, Fortran order; controls: python lists, integer arrays, data with a NaN entry that is dropped).
+    May round cfg["cond_val"] (integer control).  Returns dict(role -> (object, buffers)) and a tag"""
+    fdim, n = cfg["cond_pos"].shape
+    forms = ["array", "array", "array", "tuple", "list-of-arrays", "nested-list", "array-F"] + (["1d", "1d"] if fdim == 1 else [])
+    pform = str(rng.choice(forms))
+    vforms = ["array", "array", "array", "column", "list", "nan"] + (["int"] if cfg.get("norm") is None else [])
+    vform = str(rng.choice(vforms))
+    cp = np.array(cfg["cond_pos"], dtype=float)
+    cv = np.array(cfg["cond_val"], dtype=float)
+    if vform == "int":
+        cv = np.round(cv * 3.0)
+        cfg["cond_val"] = cv.copy()
+    if vform == "nan":       # an extra station without a value: dropped by set_condition
+        cp = np.hstack([cp, cp[:, :1] + 0.37 * unit_of(cfg)])
+        cv = np.append(cv, np.nan)
+    out = {"cond_pos": _pos_container(pform, cp)}
+    if vform in ("array", "nan"):
+        v = np.array(cv)
+        out["cond_val"] = (v, [v])
+    elif vform == "column":
+        v = np.array(cv).reshape(-1, 1)
+        out["cond_val"] = (v, [v])
+    elif vform == "int":
+        v = cv.astype(np.int64)
+        out["cond_val"] = (v, [v])
+    else:
+        v = cv.tolist()
+        out["cond_val"] = (v, [v])
+    tag = f"pos={pform}/val={vform}"
+    if isinstance(cfg["cond_err"], np.ndarray):
+        eform = str(rng.choice(["array", "array", "list"]))
+        e = np.array(cfg["cond_err"], dtype=float) if eform == "array" else np.asarray(cfg["cond_err"], dtype=float).tolist()
+        out["cond_err"] = (e, [e])
+        tag += f"/err={eform}"
+    if cfg["ext"] is not None:
+        k = cfg["ext"][0].shape[0]
+        xform = str(rng.choice(["array", "array", "list"] + (["1d"] if k == 1 else [])))
+        x = np.array(cfg["ext"][0], dtype=float)
+        x = x.reshape(-1).copy() if xform == "1d" else (x.tolist() if xform == "list" else x)
+        out["ext_drift"] = (x, [x])
+        tag += f"/ext={xform}"
+    return out, tag
+
+
+def visible_roles_changed(kr, cfg0, model):
+    """roles of the conditions whose PUBLIC value on the object differs from the snapshot taken when they were set"""
+    fdim, n = cfg0["cond_pos"].shape
+    bad = []
+    if not np.array_equal(np.asarray(kr.cond_val, dtype=float).reshape(-1), cfg0["cond_val"]):
+        bad.append("cond_val")
+    if not np.array_equal(np.asarray(kr.cond_pos, dtype=float).reshape(fdim, -1), cfg0["cond_pos"]):
+        bad.append("cond_pos")
+    try:
+        same_err = np.array_equal(np.broadcast_to(np.asarray(kr.cond_err, dtype=float), (n,)), cond_err_of(cfg0, model, n))
+    except ValueError:
+        same_err = False
+    if not same_err:
+        bad.append("cond_err")
+    if cfg0["ext"] is not None and not np.array_equal(np.asarray(kr.cond_ext_drift, dtype=float).reshape(cfg0["ext"][0].shape), cfg0["ext"][0]):
+        bad.append("ext_drift")
+    return bad
+
+
+def search_caller_mutation(rng, n, prefix="krige"):
+    """Krige objects built from caller-owned containers (see `caller_arrays`); the caller then modifies its containers IN PLACE
+    (scale, shift, noise, reorder) WITHOUT calling set_condition.  Afterwards, at the same targets given again / the stored
+    targets / new targets: estimate, variance and get_mean are those of the data as they were when set (independent numpy solve
+    on a snapshot taken before construction), the public cond_val / cond_pos / cond_err / cond_ext_drift are unchanged, and the
+    argument-less refresh set_condition() re-installs the conditions as they were set.  Returns (evaluations, violations, summary)"""
+    viol, ev, seen, tags, mut = [], 0, set(), {}, {}
+
+    def report(roles, what, text, case, **kw):
+        key = f"{prefix}:caller-array-aliased:{roles}:{what}"
+        if key not in seen:
+            seen.add(key)
+            viol.append(dict({"key": key, "what": text, "case": case}, **kw))
+
+    for t in range(n):
+        cfg = gen_config(rng, latlon_ok=False, groups=False, strat=2 * t)
+        nn = cfg["cond_pos"].shape[1]
+        if not cfg["exact"] and rng.rand() < 0.5:
+            cfg["cond_err"] = rng.randint(1, 4, nn) / 16.0
+        try:
+            with warnings.catch_warnings():
+                warnings.simplefilter("ignore")
+                given, tag = caller_arrays(rng, cfg)
+                cfg0 = copy.deepcopy(cfg)                      # the snapshot: the data as they are when set
+                mdl = make_model(np.random.RandomState(cfg["model_seed"]), cfg["dim"], cfg["latlon"], cfg["temporal"],
+                                 nugget=cfg.get("nugget"), unit=unit_of(cfg))
+                gcfg = dict(cfg, cond_err=given["cond_err"][0]) if "cond_err" in given else cfg
+                kr = build(gcfg, cond_pos=given["cond_pos"][0], cond_val=given["cond_val"][0],
+                           ext_cond=given["ext_drift"][0] if "ext_drift" in given else None)
+                stored = bool(rng.rand() < 0.6)
+                if stored:
+                    call(kr, cfg0, pos=np.array(cfg0["pos"]), post_process=False, store=True)
+        except Exception:
+            continue
+        roles = sorted(given)
+        chosen = [str(rng.choice(roles))] if rng.rand() < 0.7 else [r for r in roles if rng.rand() < 0.6] or [roles[0]]
+        kinds = {}
+        for r in chosen:
+            kinds[r] = str(rng.choice(["scale", "shift", "noise", "reorder"]))
+            for b in given[r][1]:
+                _mutate(b, "scale" if (r == "cond_err" and kinds[r] in ("shift", "noise")) else kinds[r], rng, unit_of(cfg) if r == "cond_pos" else 1.0)
+            mut[r + ":" + kinds[r]] = mut.get(r + ":" + kinds[r], 0) + 1
+        tags[tag] = tags.get(tag, 0) + 1
+        case = dict(describe(cfg0), containers=tag, modified_in_place=kinds, model=repr(mdl))
+        m = cfg0["pos"].shape[1]
+        k_ext = 0 if cfg0["ext"] is None else cfg0["ext"][0].shape[0]
+        _, tnew = gen_positions(rng, False, cfg["temporal"], cfg["fdim"], 2, int(rng.randint(1, 6)))
+        tnew = to_raw(cfg0, tnew)
+        targets = [("given-again", np.array(cfg0["pos"]), None if not k_ext else cfg0["ext"][1])]
+        if stored:
+            targets.append(("stored", None, None if not k_ext else cfg0["ext"][1]))
+        targets.append(("new", tnew, None if not k_ext else rng.randn(k_ext, tnew.shape[1])))
+
+        def evaluate(what, tlist):
+            nonlocal ev
+            vis = visible_roles_changed(kr, cfg0, mdl)
+            ev += 1
+            if vis:
+                report("+".join(vis), "visible-state" + what, "after the caller modified its own arrays in place (no set_condition call) the public "
+                       + ", ".join(vis) + " of the Krige object differ from the values given when the conditions were set", case)
+            rl = "+".join(vis) if vis else "unobserved(" + "+".join(sorted(chosen)) + ")"
+            for tk, tp, et in tlist:
+                tflat = np.array(cfg0["pos"]) if tp is None else tp
+                kw = {} if et is None else {"ext_drift": np.array(et)}
+                try:
+                    with warnings.catch_warnings():
+                        warnings.simplefilter("ignore")
+                        got = kr(**dict(kw, post_process=False, store=False)) if tp is None else \
+                            kr(np.array(tp), **dict(kw, post_process=False, store=bool(rng.rand() < 0.5), chunk_size=cfg0["chunk"]))
+                        ref = solve_direct(cfg0, mdl, tflat, ext_t=et)
+                except Exception as ex:
+                    report(rl, "raised" + what, f"kriging raised {type(ex).__name__}: {ex} after the caller modified its own arrays", case, targets=tk)
+                    continue
+                if ref["cond"] > 1e7 or not np.all(np.isfinite(ref["z"])):
+                    continue
+                tol = 1e-9 * max(ref["cond"], 1) * (1 + np.abs(ref["raw"]).max())
+                ev += 1
+                okf = np.allclose(got[0], ref["raw"], atol=tol, rtol=0, equal_nan=False)
+                okv = np.allclose(got[1], ref["var"], atol=tol, rtol=0, equal_nan=False)
+                if not (okf and okv):
+                    report(rl, ("estimate" if not okf else "variance") + what,
+                           "kriging " + ("estimate" if not okf else "variance") + " at " + tk + " targets differs from the independent solve of the "
+                           "conditions as they were when set (the caller modified " + ", ".join(sorted(chosen)) + " in place afterwards"
+                           + ("; then the argument-less refresh set_condition()" if what else "") + ")", case, targets=tk,
+                           got=[np.asarray(got[0]).tolist(), np.asarray(got[1]).tolist()], want=[ref["raw"].tolist(), ref["var"].tolist()], cond=ref["cond"])
+            if is_unbiased(cfg0) and not drift_callables(cfg0) and cfg0["ext"] is None:
+                with warnings.catch_warnings():
+                    warnings.simplefilter("ignore")
+                    gm = kr.get_mean(post_process=False)
+                    ref = solve_direct(cfg0, mdl, tnew, only_mean=True)
+                if ref["cond"] <= 1e7 and np.all(np.isfinite(ref["z"])):
+                    ev += 1
+                    if gm is None or not abs(gm - ref["raw"][0]) <= 1e-9 * max(ref["cond"], 1) * (1 + abs(ref["raw"][0])):
+                        report(rl, "get-mean" + what, "get_mean differs from the mean estimated from the conditions as they were when set",
+                               case, got=None if gm is None else float(gm), want=float(ref["raw"][0]))
+
+        evaluate("", targets)
+        if rng.rand() < 0.5:
+            try:
+                with warnings.catch_warnings():
+                    warnings.simplefilter("ignore")
+                    kr.set_condition()
+            except Exception as ex:
+                report("unobserved(" + "+".join(sorted(chosen)) + ")", "raised-after-refresh", f"set_condition() raised {type(ex).__name__}: {ex}", case)
+                continue
+            evaluate("-after-refresh", [targets[-1]])
+    viol.sort(key=lambda v: bool(ALIAS_PRISTINE.match(v["key"])))          # (stable) aliasing of the values / positions first
+    tags = {k: sum(v for t_, v in tags.items() if k in t_.split("/")) for k in sorted({x for t_ in tags for x in t_.split("/")})}
+    return ev, viol, (f"{n} Krige objects built from caller-owned containers ({tags}), caller buffers modified in place afterwards ({mut}) without "
+                      "set_condition: estimate / variance / get_mean at the same, the stored and new targets vs the independent solve of a snapshot "
+                      "taken before construction; public cond_val / cond_pos / cond_err / cond_ext_drift unchanged; argument-less refresh re-installs "
+                      "the conditions as set")
+
+
+# ------------------------------------------------------------------ (2) geometry changes through every setter
+GEO_CLASSES = {"Gaussian": {}, "Exponential": {}, "Spherical": {}, "Cubic": {}, "Matern": {"nu": 1.5}, "Stable": {"alpha": 1.3},
+               "Rational": {"alpha": 2.0}}
+GEO_SETTERS = ["len_list", "len_list_short", "len_scalar", "int_list", "int_scalar", "anis", "angles", "dim", "rescale", "var", "nugget"]
+
+
+class GeoState:
+    """own bookkeeping of the documented semantics of the CovModel setters (nothing is read back from the model)"""
+
+    def __init__(self, rng, dim, cls):
+        k = {1: 0, 2: 1, 3: 3}[dim]
+        self.cls, self.dim = cls, dim
+        self.var = float(rng.choice([0.5, 1.0, 2.0]))
+        self.L = float(rng.choice([1.0, 2.0, 3.0]))
+        self.nugget = float(rng.choice([0.0, 0.0, 0.125]))
+        self.rescale = None
+        self.anis = [float(a) for a in rng.choice([0.25, 0.5, 1.0, 2.0], size=dim - 1)]
+        self.angles = [float(a) for a in rng.uniform(-1.4, 1.4, size=k)] if rng.rand() < 0.7 else [0.0] * k
+
+    def kwargs(self):
+        kw = dict(dim=self.dim, var=self.var, len_scale=self.L, nugget=self.nugget, **GEO_CLASSES[self.cls])
+        if self.rescale is not None:
+            kw["rescale"] = self.rescale
+        return kw
+
+    def make(self):
+        """the model under test, built with the current geometry"""
+        import gstools as gs
+        kw = self.kwargs()
+        if self.dim > 1:
+            kw.update(anis=list(self.anis), angles=list(self.angles))
+        return getattr(gs, self.cls)(**kw)
+
+    def profile(self):
+        """covariance as a function of the ISOTROPIC lag from a freshly constructed model with scalar parameters only"""
+        import gstools as gs
+        return getattr(gs, self.cls)(**self.kwargs()).covariance
+
+    def unit_integral_scale(self):
+        import gstools as gs
+        kw = dict(self.kwargs(), len_scale=1.0)
+        return float(getattr(gs, self.cls)(**kw).integral_scale)
+
+    def apply(self, rng, model, setter):
+        """performs the setter on `model` and on the bookkeeping; returns a description"""
+        d = self.dim
+        if setter in ("len_list", "len_list_short", "int_list"):
+            if d == 1:
+                setter = "len_scalar" if setter.startswith("len") else "int_scalar"
+        if setter in ("anis", "angles") and d == 1:
+            setter = "len_scalar"
+        if setter == "len_list":
+            ls = [float(x) for x in rng.choice([0.75, 1.5, 2.5, 4.0], size=d)]
+            model.len_scale = ls if rng.rand() < 0.5 else np.array(ls)
+            self.L, self.anis = ls[0], [x / ls[0] for x in ls[1:]]
+            return f"model.len_scale = {ls}"
+        if setter == "len_list_short":        # fewer values than dimensions: the last one is repeated
+            ls = [float(x) for x in rng.choice([0.75, 1.5, 2.5, 4.0], size=2)]
+            model.len_scale = ls
+            full = ls + [ls[-1]] * (d - 2)
+            self.L, self.anis = full[0], [x / full[0] for x in full[1:d]]
+            return f"model.len_scale = {ls}"
+        if setter == "len_scalar":            # keeps the ratios
+            self.L = float(rng.choice([0.75, 1.5, 2.5, 4.0]))
+            model.len_scale = self.L
+            return f"model.len_scale = {self.L}"
+        if setter == "int_list":
+            ls = [float(x) for x in rng.choice([0.75, 1.5, 2.5, 4.0], size=d)]
+            model.integral_scale = ls
+            self.L, self.anis = ls[0] / self.unit_integral_scale(), [x / ls[0] for x in ls[1:]]
+            return f"model.integral_scale = {ls}"
+        if setter == "int_scalar":
+            v = float(rng.choice([0.75, 1.5, 2.5, 4.0]))
+            model.integral_scale = v
+            self.L = v / self.unit_integral_scale()
+            return f"model.integral_scale = {v}"
+        if setter == "anis":
+            self.anis = [float(a) for a in rng.choice([0.3, 0.6, 1.0, 1.8], size=d - 1)]
+            model.anis = list(self.anis) if d > 2 or rng.rand() < 0.5 else self.anis[0]
+            return f"model.anis = {self.anis}"
+        if setter == "angles":
+            self.angles = [float(a) for a in rng.uniform(-1.4, 1.4, size={2: 1, 3: 3}[d])]
+            model.angles = list(self.angles) if d > 2 or rng.rand() < 0.5 else self.angles[0]
+            return f"model.angles = {self.angles}"
+        if setter == "dim":
+            new = {1: 2, 2: int(rng.choice([1, 3])), 3: 2}[d]
+            model.dim = new
+            # documented: missing ratios are filled with 1 in FRONT (anis=[e] in 3-D is [1, e]), missing angles with 0
+            if new > d:
+                self.anis = [1.0] * (new - 1 - len(self.anis)) + list(self.anis)
+                self.angles = list(self.angles) + [0.0] * ({1: 0, 2: 1, 3: 3}[new] - len(self.angles))
+            else:
+                self.anis = list(self.anis)[: new - 1]
+                self.angles = list(self.angles)[: {1: 0, 2: 1, 3: 3}[new]]
+            self.dim = new
+            return f"model.dim = {new}"
+        if setter == "rescale":
+            self.rescale = float(rng.choice([0.5, 1.0, 2.0, 3.0]))
+            model.rescale = self.rescale
+            return f"model.rescale = {self.rescale}"
+        if setter == "var":
+            self.var = float(rng.choice([0.4, 1.5, 2.5]))
+            model.var = self.var
+            return f"model.var = {self.var}"
+        self.nugget = float(rng.choice([0.0, 0.0625, 0.25]))
+        model.nugget = self.nugget
+        return f"model.nugget = {self.nugget}"
+
+
+def _geo_layout(rng, dim, n):
+    grid = np.array(np.meshgrid(*([np.arange({1: 10, 2: 4, 3: 3}[dim])] * dim), indexing="ij")).reshape(dim, -1)
+    idx = rng.choice(grid.shape[1], size=min(n, grid.shape[1]), replace=False)
+    return grid[:, idx] * 2.0 + rng.uniform(-0.4, 0.4, size=(dim, len(idx)))
+
+
+def _geo_drift(variant, pos):
+    return [np.asarray(p, dtype=float) for p in pos] if variant == "Universal" else []
+
+
+def _geo_ext(*pos):
+    return np.sin(np.asarray(pos[0], dtype=float) / 3.0) + 0.2 * np.asarray(pos[-1], dtype=float)
+
+
+def search_geometry_setters(rng, n, prefix="krige"):
+    """histories on ONE model object: a Krige object is built (and mostly called) first, then the geometry is changed through
+    the model's setters — len_scale as a list / array (redefines the ratios), a short list, a scalar (keeps them),
+    integral_scale list / scalar, anis, angles, dim, rescale (and var / nugget) — followed by the documented refresh
+    set_condition(), a new Krige object on the same model object, or set_condition with new data; estimate and variance at
+    given / stored / new targets are compared with a numpy solve whose distances come from hand-written rotation / stretching
+    with the CURRENT geometry (own bookkeeping of the documented setter semantics) and whose covariance profile comes from a
+    freshly constructed isotropic model.  Returns (evaluations, violations, summary)"""
+    import gstools as gs
+    viol, ev, seen, dist = [], 0, set(), {}
+    for t in range(n):
+        dim = int(rng.choice([1, 2, 2, 2, 3, 3]))
+        cls = str(rng.choice(sorted(GEO_CLASSES)))
+        variant = ["Simple", "Ordinary", "Universal", "ExtDrift"][t % 4]
+        st = GeoState(rng, dim, cls)
+        hist = []
+        with warnings.catch_warnings():
+            warnings.simplefilter("ignore")
+            try:
+                model = st.make()
+            except Exception:
+                continue
+            exact = bool(st.nugget > 0 and rng.rand() < 0.4)
+            err_kind = "nugget" if exact or rng.rand() < 0.6 else str(rng.choice(["scalar", "array"]))
+
+            def new_data():
+                nc = int(rng.randint(3, 8)) + (st.dim + 1 if variant == "Universal" else (2 if variant == "ExtDrift" else 0))
+                cp = _geo_layout(rng, st.dim, nc)
+                nn = cp.shape[1]
+                ce = "nugget" if err_kind == "nugget" else (0.0625 if err_kind == "scalar" else rng.randint(0, 3, nn) / 16.0)
+                return cp, rng.randn(nn), ce
+
+            def mk(cp, cv, ce):
+                kw = dict(exact=exact, cond_err=ce)
+                if variant == "Simple":
+                    return gs.krige.Simple(model, cp, cv, mean=0.4, **kw)
+                if variant == "Ordinary":
+                    return gs.krige.Ordinary(model, cp, cv, **kw)
+                if variant == "Universal":
+                    return gs.krige.Universal(model, cp, cv, "linear", **kw)
+                return gs.krige.ExtDrift(model, cp, cv, _geo_ext(*cp), **kw)
+
+            def compare(kr, cp, cv, ce, tp, how, stored=False):
+                nonlocal ev
+                kw = {"ext_drift": _geo_ext(*tp)} if variant == "ExtDrift" else {}
+                try:
+                    got = kr(**kw, post_process=False) if stored else kr(np.array(tp), **kw, post_process=False, chunk_size=int(rng.randint(1, 5)))
+                except Exception as ex:
+                    key = f"{prefix}:geometry-setter:raised:{type(ex).__name__}"
+                    if key not in seen:
+                        seen.add(key)
+                        viol.append({"key": key, "what": f"{type(ex).__name__}: {ex}", "case": dict(history=list(hist), variant=variant)})
+                    return
+                T = hand_iso(st.dim, st.anis, st.angles)
+                err = np.full(cp.shape[1], st.nugget) if isinstance(ce, str) else np.broadcast_to(np.asarray(ce, dtype=float), (cp.shape[1],))
+                z = cv - (0.4 if variant == "Simple" else 0.0)
+                ref = hand_solve(st.profile(), st.var + st.nugget, (T @ cp).T, (T @ tp).T, z, err, unbiased=variant != "Simple",
+                                 rows_c=_geo_drift(variant, cp) + ([_geo_ext(*cp)] if variant == "ExtDrift" else []),
+                                 rows_t=_geo_drift(variant, tp) + ([_geo_ext(*tp)] if variant == "ExtDrift" else []), exact=exact)
+                if ref["cond"] > 1e7:
+                    dist["discarded(cond>1e7)"] = dist.get("discarded(cond>1e7)", 0) + 1
+                    return
+                ev += 1
+                tol = 1e-9 * max(ref["cond"], 1) * (1 + np.abs(ref["raw"]).max())
+                okf, okv = np.allclose(got[0], ref["raw"], atol=tol, rtol=0), np.allclose(got[1], ref["var"], atol=tol, rtol=0)
+                if not (okf and okv):
+                    last = [h.split(" = ")[0].replace("model.", "") + (":list" if "[" in h else ":scalar") for h in hist if h.startswith("model.")][-2:]
+                    key = f"{prefix}:geometry-setter:{'+'.join(last) if last else 'constructed'}:{how}"
+                    if key not in seen:
+                        seen.add(key)
+                        viol.append({"key": key, "what": "kriging " + ("estimate" if not okf else "variance") + " differs from the numpy solve of the kriging "
+                                     "system with the model's CURRENT geometry (hand-written rotation / stretching; main length scale, ratios and angles "
+                                     "as the setters define them) after: " + "; ".join(hist),
+                                     "case": dict(variant=variant, model_class=cls, history=list(hist), expected_state=dict(st.kwargs(), anis=st.anis, angles=st.angles),
+                                                  model=repr(model), cond_pos=cp.tolist(), cond_val=cv.tolist(), cond_err=ce if isinstance(ce, (str, float)) else np.asarray(ce).tolist(),
+                                                  exact=exact, targets=np.asarray(tp).tolist()),
+                                     "got": [np.asarray(got[0]).tolist(), np.asarray(got[1]).tolist()], "want": [ref["raw"].tolist(), ref["var"].tolist()], "cond": ref["cond"]})
+
+            try:
+                cp, cv, ce = new_data()
+                kr = mk(cp, cv, ce)                 # first use of the model
+                hist.append(f"{variant}({cls}(dim={dim}, len_scale={st.L}, anis={st.anis}, angles={np.round(st.angles, 3).tolist()}), exact={exact}, cond_err={err_kind})")
+                tp = rng.uniform(-1, 7, size=(st.dim, int(rng.randint(2, 7))))
+                if rng.rand() < 0.7:
+                    hist.append("krige(targets)")
+                    compare(kr, cp, cv, ce, tp, "first-call")
+                for step in range(int(rng.randint(1, 4))):
+                    k = int(rng.randint(1, 3))
+                    setters = [str(s) for s in rng.choice(GEO_SETTERS, size=k, replace=False,
+                                                          p=np.array([4, 2, 2, 3, 1, 2, 2, 1.5, 1.5, 1, 1]) / 21.0)]
+                    old_dim = st.dim
+                    for s_ in setters:
+                        d_ = st.apply(rng, model, s_)
+                        hist.append(d_)
+                        dist[d_.split(" = ")[0].replace("model.", "") + (":list" if "[" in d_ else ":scalar")] = \
+                            dist.get(d_.split(" = ")[0].replace("model.", "") + (":list" if "[" in d_ else ":scalar"), 0) + 1
+                    if st.dim != old_dim:
+                        # (the polynomial drift functions of Universal are fixed at construction for the dimension of that time: a new object)
+                        route = "new-krige-new-data" if (rng.rand() < 0.5 or variant == "Universal") else "set_condition-new-data"
+                    else:
+                        route = str(rng.choice(["set_condition", "set_condition", "new-krige", "set_condition-new-data"]))
+                    if route.endswith("new-data"):
+                        cp, cv, ce = new_data()
+                    if route.startswith("new-krige"):
+                        kr = mk(cp, cv, ce)
+                    elif route == "set_condition":
+                        kr.set_condition()
+                    else:
+                        kr.set_condition(cp, cv, **({"ext_drift": _geo_ext(*cp)} if variant == "ExtDrift" else {}), cond_err=ce)
+                    hist.append(route)
+                    dist["route:" + route] = dist.get("route:" + route, 0) + 1
+                    stored = st.dim == old_dim and kr.pos is not None and rng.rand() < 0.3
+                    if not stored:
+                        tp = rng.uniform(-1, 7, size=(st.dim, int(rng.randint(2, 7))))
+                    compare(kr, cp, cv, ce, tp, route + (":stored-targets" if stored else ""), stored=stored)
+            except Exception as ex:
+                dist["rejected:" + type(ex).__name__] = dist.get("rejected:" + type(ex).__name__, 0) + 1
+                continue
+    return ev, viol, (f"{n} histories of geometry changes through the model's setters after first use ({dist}), refreshed by set_condition() / a new Krige on "
+                      "the same model object / set_condition with new data, vs a numpy solve with hand-written rotation / stretching for the CURRENT geometry")
+
+
+# ------------------------------------------------------------------ (3) models whose variance differs from their raw intensity
+_USER_MODELS = {}
+
+
+def user_models():
+    """user-defined CovModel subclasses overriding var_factor (var = var_raw * var_factor())"""
+    if not _USER_MODELS:
+        import gstools as gs
+
+        class ScaledGau(gs.CovModel):
+            """Gaussian-type correlation; the variance grows with the rescaled length scale"""
+
+            def cor(self, h):
+                return np.exp(-np.asarray(h, dtype=float) ** 2)
+
+            def var_factor(self):
+                return 0.5 + 0.75 * self.len_rescaled
+
+        class ShapedExp(gs.CovModel):
+            """exponential-type correlation with an optional argument entering the variance factor"""
+
+            def default_opt_arg(self):
+                return {"beta": 1.5}
+
+            def cor(self, h):
+                return np.exp(-np.abs(np.asarray(h, dtype=float)))
+
+            def var_factor(self):
+                return 1.0 / (1.0 + self.beta)
+
+        _USER_MODELS.update(ScaledGau=ScaledGau, ShapedExp=ShapedExp)
+    return _USER_MODELS
+
+
+VARFACTOR_CLASSES = ["TPLGaussian", "TPLExponential", "TPLStable", "ScaledGau", "ShapedExp"]
+
+
+def varfactor_model(rng, cfg, nugget=None, name=None):
+    """a model with var_factor != 1 for the (Cartesian) configuration: TPLGaussian / TPLExponential / TPLStable with
+    len_scale != 1, len_low > 0, hurst != 0.5, non-default rescale; user-defined subclasses overriding var_factor"""
+    import gstools as gs
+    name = str(rng.choice(VARFACTOR_CLASSES)) if name is None else name
+    u = unit_of(cfg)
+    kw = dict(len_scale=float(rng.choice([0.4, 2.0, 3.0, 5.0])) * u,
+              nugget=float(rng.choice([0.0, 0.125, 0.5])) if nugget is None else nugget)
+    if cfg["temporal"]:
+        kw.update(temporal=True, spatial_dim=cfg["dim"])
+    else:
+        kw["dim"] = cfg["dim"]
+    if cfg["fdim"] > 1 and rng.rand() < 0.5:
+        kw["anis"] = [float(a) for a in rng.choice([0.5, 2.0], size=cfg["fdim"] - 1)]
+        kw["angles"] = [float(a) for a in rng.uniform(-1.5, 1.5, size=cfg["fdim"] * (cfg["fdim"] - 1) // 2)]
+    if name.startswith("TPL"):
+        kw.update(hurst=float(rng.choice([0.2, 0.35, 0.5, 0.8])), len_low=float(rng.choice([0.0, 0.5, 1.5])) * u)
+        if name == "TPLStable":
+            kw["alpha"] = float(rng.choice([0.8, 1.5, 2.0]))
+        cls = getattr(gs, name)
+    else:
+        cls = user_models()[name]
+        if name == "ShapedExp":
+            kw["beta"] = float(rng.choice([0.5, 1.5, 3.0]))
+    if rng.rand() < 0.4:
+        kw["rescale"] = float(rng.choice([0.5, 2.0, 3.0]))
+    if rng.rand() < 0.5:
+        kw["var"] = float(rng.choice([0.5, 1.7, 3.0]))
+    else:
+        kw["var_raw"] = float(rng.choice([0.5, 1.0, 2.0]))
+    with warnings.catch_warnings():
+        warnings.simplefilter("ignore")
+        return cls(**kw), (cls, kw)
+
+
+def search_var_factor(rng, n, zero=False, prefix="krige"):
+    """every kriging variant on models whose variance is NOT their raw intensity (`varfactor_model`), nugget {0, > 0} x exact x error
+    kinds: estimate and variance at free targets and at the data vs the independent solve (model.covariance of the lags; sill =
+    REPORTED variance + nugget); 0 <= variance (<= reported sill for simple kriging); zero=True: zero measurement error (exact mode /
+    zero error / nugget-free) -> the data are reproduced with variance 0 (nugget for zero error).  Returns (evaluations, violations, summary)"""
+    viol, ev, seen, dist = [], 0, set(), {}
+
+    def report(key, what, case, **kw):
+        if key not in seen:
+            seen.add(key)
+            viol.append(dict({"key": key, "what": what, "case": case}, **kw))
+
+    for t in range(n):
+        cfg = gen_config(rng, latlon_ok=False, groups=False, strat=2 * t)
+        mode = None
+        if zero:
+            mode = ["exact", "zero-err", "no-nugget"][t % 3]
+            cfg = dict(cfg)
+            if mode == "exact":
+                cfg.update(exact=True, cond_err="nugget")
+            elif mode == "zero-err":
+                cfg.update(exact=False, cond_err=0.0)
+            else:
+                cfg.update(exact=False, cond_err="nugget")
+        nug = cfg.get("nugget")
+        if mode == "no-nugget":
+            nug = 0.0
+        elif mode in ("exact", "zero-err") or (cfg["exact"] and rng.rand() < 0.7):
+            nug = float(rng.choice([0.125, 0.5]))
+        try:
+            model, (cls, kw) = varfactor_model(rng, cfg, nugget=nug)
+            with warnings.catch_warnings():
+                warnings.simplefilter("ignore")
+                ref_model = cls(**kw)            # a second object: the oracle never shares state with the object under test
+                vf = float(model.var / model.var_raw)
+                kr = build(cfg, model=model)
+                ext_c = {"ext_drift": cfg["ext"][0]} if cfg["ext"] else {}
+                ft, vt = call(kr, cfg, post_process=False, store=False)
+                fd, vd = kr(cfg["cond_pos"], post_process=False, store=False, **ext_c)
+                fp, _ = kr(cfg["cond_pos"], post_process=True, store=False, **ext_c)
+                rt = solve_direct(cfg, ref_model, cfg["pos"])
+                rd = solve_direct(cfg, ref_model, cfg["cond_pos"], ext_t=cfg["ext"][0] if cfg["ext"] else None)
+        except Exception as ex:
+            dist["rejected:" + type(ex).__name__] = dist.get("rejected:" + type(ex).__name__, 0) + 1
+            continue
+        if max(rt["cond"], rd["cond"]) > 1e7 or not np.all(np.isfinite(rt["z"])):
+            dist["discarded(cond>1e7)"] = dist.get("discarded(cond>1e7)", 0) + 1
+            continue
+        sill = float(ref_model.var) + float(ref_model.nugget)
+        tag = f"{type(model).__name__}/var_factor{'=1' if abs(vf - 1) < 1e-12 else '!=1'}/nugget{'>0' if model.nugget > 0 else '=0'}/exact={cfg['exact']}"
+        dist[tag] = dist.get(tag, 0) + 1
+        case = dict(describe(cfg), model=repr(model), model_kwargs={k: (v if not isinstance(v, list) else list(v)) for k, v in kw.items()},
+                    var=float(model.var), var_raw=float(model.var_raw), var_factor=vf, reported_sill=sill, mode=mode)
+        tol = 1e-9 * max(rt["cond"], rd["cond"], 1) * (1 + np.abs(rt["raw"]).max() + np.abs(rd["raw"]).max())
+        ev += 2
+        for nm, got, ref in (("targets", (ft, vt), rt), ("data", (fd, vd), rd)):
+            okf, okv = np.allclose(got[0], ref["raw"], atol=tol, rtol=0), np.allclose(got[1], ref["var"], atol=tol + 1e-9 * sill, rtol=0)
+            if not (okf and okv):
+                report(f"{prefix}:var-factor:direct-solve:{'estimate' if not okf else 'variance'}:{cfg['variant']}",
+                       "kriging " + ("estimate" if not okf else "variance") + f" at the {nm} differs from the independent solve (model.covariance of the lags, sill = "
+                       f"reported variance + nugget) for a model with variance factor {vf:.4g}", case,
+                       got=[np.asarray(got[0]).tolist(), np.asarray(got[1]).tolist()], want=[ref["raw"].tolist(), ref["var"].tolist()], cond=ref["cond"])
+        ev += 1
+        allv = np.concatenate([np.ravel(vt), np.ravel(vd)])
+        if np.any(allv < 0):
+            report(f"{prefix}:var-factor:negative-variance", "negative kriging variance", case, got=allv.tolist())
+        if not is_unbiased(cfg) and not drift_callables(cfg) and cfg["ext"] is None and np.any(allv > sill * (1 + 1e-9)):
+            report(f"{prefix}:var-factor:variance-above-sill", f"simple kriging variance exceeds the sill (reported variance + nugget = {sill:.6g})", case,
+                   got=allv.tolist())
+        if zero:
+            ev += 1
+            z = prepared_data(cfg)
+            dtol = 1e-7 * (1 + np.abs(z).max()) * max(1.0, rd["cond"] / 1e3)
+            vexp = float(ref_model.nugget) if mode == "zero-err" else 0.0
+            if not np.allclose(fd, z, atol=dtol, rtol=0):
+                report(f"{prefix}:var-factor:exactness:{cfg['variant']}:{mode}", "raw kriged field at the conditioning points differs from the prepared data "
+                       f"(zero measurement error, variance factor {vf:.4g})", case, got=np.asarray(fd).tolist(), want=z.tolist(), cond=rd["cond"])
+            if not np.all(np.abs(vd - vexp) <= 1e-7 * sill * max(1.0, rd["cond"] / 1e3)):
+                report(f"{prefix}:var-factor:zero-variance:{cfg['variant']}:{mode}", "kriging variance at the conditioning points is not "
+                       f"{'the nugget' if vexp else 'zero'} (variance factor {vf:.4g})", case, got=np.asarray(vd).tolist(), want=vexp, cond=rd["cond"])
+            want = ref_post(cfg, z, cfg["cond_pos"])
+            if np.all(np.isfinite(want)) and not np.allclose(fp, cfg["cond_val"], atol=1e-6 * (1 + np.abs(cfg["cond_val"]).max()) * max(1.0, rd["cond"] / 1e3), rtol=1e-6):
+                report(f"{prefix}:var-factor:exactness-post:{cfg['variant']}:{mode}", "post-processed kriged field at the conditioning points differs from the data",
+                       case, got=np.asarray(fp).tolist(), want=np.asarray(cfg["cond_val"]).tolist(), cond=rd["cond"])
+    return ev, viol, (f"{n} kriging problems on models with var != var_raw (TPLGaussian / TPLExponential / TPLStable with len_scale != 1, len_low > 0, hurst != 0.5, "
+                      f"rescale; user-defined subclasses overriding var_factor): {dist}; vs the independent solve (sill = reported variance + nugget), variance in "
+                      "[0, sill]" + ("; exactness and zero variance at the data under zero measurement error" if zero else ""))
